@@ -130,8 +130,8 @@ class C03(Prop):
             for w in ins[:8]:
                 w[n - 1] = w[n - 1] or 1
             yield {"k": "tf", "kind": "list", "m": m, "ins": ins}
-            yield {"k": "tf", "kind": "poly", "m": m, "ins": ins[:12], "pkg": "py"}
-            yield {"k": "tf", "kind": "list", "m": m, "ins": ins[:10], "mlayout": "inverse", "pkg": "py"}
+            yield {"k": "tf", "kind": "poly", "m": m, "ins": ins[:12]}
+            yield {"k": "tf", "kind": "list", "m": m, "ins": ins[:10], "mlayout": "inverse"}
             yield {"k": "tf", "kind": "kernel", "m": m, "ins": ins, "pkg": "py"}
         # one wide register: N = 40, a product of random one-qubit Cliffords (with two-qubit blocks in thorough),
         # applied to > 1024 low-weight operators with all phases (lists longer / registers wider than any fast path
